@@ -134,7 +134,8 @@ env_run_callback_of(nni_aio *aio)
 void
 nni_aio_init(nni_aio *aio, nni_cb cb, void *arg)
 {
-	memset(aio, 0, sizeof(*aio));
+	static const nni_aio zero;
+	*aio = zero; /* struct assignment instead of memset: keeps field sensitivity in symex */
 	aio->a_task.task_cb  = cb;
 	aio->a_task.task_arg = arg;
 	aio->a_expire        = NNI_TIME_NEVER;
